@@ -2289,8 +2289,39 @@ def rule_net_ordering(repo):
     return rule_pairing(repo)
 
 
+def rule_writer_via_helpers(repo):
+    """the writer of a net is found among the signals update blocks write; a write made inside a (nested) @s.func helper must be
+    credited to the calling block, otherwise a driven net is rejected with NoWriterError or resolved to the wrong writer.
+    Shared with C02 (R-C02-funcfold)."""
+    from rules.c02 import rule_funcfold
+    return rule_funcfold(repo)
+
+
+def rule_names_denote_storage(repo):
+    """net blocks are generated as source text from the members' full names (`s.a.f[1][0] = s.b`): the name of a struct-field /
+    list-element signal must denote exactly the storage that signal stands for (index order included), otherwise the generated
+    assignment moves the value into a different element.  Shared with C14 (R-C14-name-storage)."""
+    from rules.c14 import rule_name_storage
+    return rule_name_storage(repo)
+
+
+def rule_replace_keeps_nets(repo):
+    """after replace_component the connections re-applied by the parent are exactly the outside connections of the removed
+    subtree (constants tied inside it are not re-applied on top of the replacement).  Shared with C15 (R-C15-saved)."""
+    from rules.c15 import rule_saved
+    return rule_saved(repo)
+
+
+def rule_replace_filters(repo):
+    """the filter that separates outside connections from the removed subtree's own ones excludes removed signals, method
+    ports and constants.  Shared with C15 (R-C15-keys)."""
+    from rules.c15 import rule_keys
+    return rule_keys(repo)
+
+
 RULES = [rule_symmetric, rule_const, rule_nodes, rule_flood, rule_seed, rule_unique, rule_propagate, rule_residence, rule_netblock, rule_overlap,
-         rule_pending_flag, rule_ancestors, rule_collectors, rule_ifc_symmetric, rule_net_ordering]
+         rule_pending_flag, rule_ancestors, rule_collectors, rule_ifc_symmetric, rule_net_ordering, rule_writer_via_helpers,
+         rule_names_denote_storage, rule_replace_keeps_nets, rule_replace_filters]
 
 
 # ---------------------------------------------------------------------------------------------------------------
